@@ -694,7 +694,7 @@ def assigned (steps : List RStep) : List Field :=
 def stepKnown : RStep → Bool
   | .unknown _ => false
   | .notify m => m == "ConfigFileReload" || m == "LayerChange"
-  | .effect m => m == "release_held_mouse_buttons"
+  | .effect m => m == "release_held_custom_outputs"
   | _ => true
 
 end KVerif.Reload
